@@ -226,7 +226,17 @@ def create_formatted_exception(
         try:
             inst = BaseException.__new__(new)
         except TypeError:
-            inst = cls.__new__(new)
+            # A class with a ``__new__`` of its own (OSError and its
+            # family).  ``cls`` may itself be a class made here - when
+            # the error of a nested render is formatted - and then
+            # carries ``BaseException.__new__``: take the first one in
+            # the hierarchy that is not that.
+            for klass in cls.__mro__:
+                if klass.__new__ is not BaseException.__new__:
+                    inst = klass.__new__(new)
+                    break
+            else:
+                raise
 
         BaseException.__init__(inst, *exc.args)
         # (not through a ``__setattr__`` of the class: one that guards
